@@ -522,16 +522,23 @@ Print Assumptions c07_shdr_context_some_iff.
 
 Theorem c07_shdr_context_none_iff :
   forall r tl,
-  get_ctx (r :: tl) = RNone
-  <-> ((forall id s e, ~ placed_on id r s e) /\ Forall (fun r' => hr_ref r' = None) tl).
+  get_ctx (r :: tl) = RNone <-> Forall (fun r' => hr_ref r' = None) (r :: tl).
 Proof. exact get_ctx_none_iff. Qed.
 Print Assumptions c07_shdr_context_none_iff.
+
+(* /repo 21fc9d0 (cram-first-record-reference-without-position-loses-rname): a slice declared
+   unmapped - the only kind whose records' reference ids are not stored - holds no record with a
+   reference id, wherever in the slice it stands *)
+Theorem c07_shdr_unmapped_slice_has_no_reference :
+  forall rs r, get_ctx rs = RNone -> In r rs -> hr_ref r = None.
+Proof. exact get_ctx_none_no_reference. Qed.
+Print Assumptions c07_shdr_unmapped_slice_has_no_reference.
 
 Theorem c07_shdr_context_many_iff :
   forall r tl,
   get_ctx (r :: tl) = RMany
   <-> ((forall id, ~ Forall (fun x => exists rs' re', placed_on id x rs' re') (r :: tl))
-       /\ ~ ((forall id s e, ~ placed_on id r s e) /\ Forall (fun r' => hr_ref r' = None) tl)).
+       /\ ~ Forall (fun r' => hr_ref r' = None) (r :: tl)).
 Proof. exact get_ctx_many_iff. Qed.
 Print Assumptions c07_shdr_context_many_iff.
 
@@ -683,11 +690,11 @@ Example c07_shdr_ex_rejected :
   shdr_rows shdr_ex_refsq 3 [srec_of (Some 1) (Some 5) [] [65] [30]] = SErr ESpanOutside.
 Proof. vm_compute. reflexivity. Qed.
 
-(* the order dependence of get_reference_sequence_context: a record with a reference id but no
-   start is treated as unplaced when it is first, and makes the slice multi-reference otherwise *)
+(* a record with a reference id but no start makes the slice multi-reference wherever it stands
+   (/repo 21fc9d0; before, as the first record it left the slice unmapped and lost its RNAME) *)
 Example c07_shdr_ex_ref_without_start :
   shdr_rows shdr_ex_refsq 3 [shdr_ex_nostart; shdr_ex_u] =
-    SOk [mk_row true (-1) 0 0 2 0 0 false; mk_row false (-1) 0 0 2 0 (-1) false]
+    SOk [mk_row true (-2) 0 0 2 0 0 false; mk_row false (-2) 0 0 2 0 (-1) false]
   /\ shdr_rows shdr_ex_refsq 3 [shdr_ex_u; shdr_ex_nostart] =
     SOk [mk_row true (-2) 0 0 2 0 0 false; mk_row false (-2) 0 0 2 0 (-1) false].
 Proof. split; vm_compute; reflexivity. Qed.
